@@ -1,0 +1,17 @@
+//go:build verif
+
+// Contract of the lattice decomposition used by the endomorphism-accelerated scalar multiplications (comment-only;
+// installed by /verif/gcv gen-contracts). Layer: math/big integers are mathematical integers.
+
+package ecc
+
+// SplitScalar returns s minus an integer combination of the two lattice vectors: whatever the two multipliers are
+// (they are computed with a shift instead of a division, so they are only close to the rounded quotients), the
+// result differs from (s, 0) by a lattice vector. ka and kb are the multipliers the code computed.
+//@ func SplitScalar
+//@ layer bigint big.Int
+//@ ghost-final ka = k1
+//@ ghost-final kb = k2
+//@ ensures[lattice] result[0] == *s - ka*l.V1[0] - kb*l.V2[0] && result[1] == -ka*l.V1[1] - kb*l.V2[1]
+//@ modifies nothing
+//@ end
